@@ -60,18 +60,22 @@ Print Assumptions C05_calc_causal.
 Theorem C05_calc_then_just : forall script f v bs t ts,
   denote script (Un (UThen f) (Just v)) bs t ts = Some (fn_out f v, t).
 Proof. exact denote_then_just. Qed.
+Print Assumptions C05_calc_then_just.
 
 Theorem C05_calc_let_value_just : forall script v k bs t ts,
   denote script (Bin BLetV (Just v) k) bs t ts = denote script k (v :: bs) t ts.
 Proof. exact denote_let_value_just. Qed.
+Print Assumptions C05_calc_let_value_just.
 
 Theorem C05_calc_sequence_just : forall script v k bs t ts,
   denote script (Bin BSeq (Just v) k) bs t ts = denote script k bs t ts.
 Proof. exact denote_sequence_just. Qed.
+Print Assumptions C05_calc_sequence_just.
 
 Theorem C05_calc_finally_just : forall script a v bs t ts,
   denote script (Bin BFinally a (Just v)) bs t ts = denote script a bs t ts.
 Proof. exact denote_finally_just. Qed.
+Print Assumptions C05_calc_finally_just.
 
 Theorem C05_calc_when_all_justs : forall script x y bs t,
   denote script (Bin BWhenAll (Just x) (Just y)) bs t None = Some (OVal (combine x y), t).
